@@ -24,7 +24,10 @@ bool attr(struct attr *a, enum attrkind k) { return false; }
 bool gnuattr(struct attr *a, enum attrkind k) { return false; }
 void next(void) { }
 bool peek(int k) { return false; }
-char *expect(enum tokenkind k, const char *msg) { return 0; }
+/* token script: after the exp_switch_at-th expect() the current token becomes exp_switch_to (lets a unit say "the
+   third clause of the for statement is empty") */
+static int exp_n, exp_switch_at; static enum tokenkind exp_switch_to;
+char *expect(enum tokenkind k, const char *msg) { if (++exp_n == exp_switch_at) tok.kind = exp_switch_to; return 0; }
 struct block *mkblock(char *name) { struct block *b = &blk[nblk++ % 16]; return b; }
 
 /* event log of what stmt() tells the back end, in order: the control-flow skeleton of the statement */
@@ -63,7 +66,7 @@ struct scope *delscope(struct scope *s) { return s->parent; }
 static void
 stmt_common_init(void)
 {
-	nblk = 0; nsc = 0; nev = 0;
+	nblk = 0; nsc = 0; nev = 0; exp_n = 0; exp_switch_at = -1;
 	t_int.kind = TYPEINT;
 	t_int.prop = PROPSCALAR|PROPARITH|PROPREAL|PROPINT;
 	t_int.size = t_int.align = 4;
